@@ -6,7 +6,13 @@ with which its gradient is added (`gx += coef * gc`) are compared with the formu
     linear     rho*|h|            / rho*max(0,g)          gradient  rho*sign(h)*grad h / rho*grad g (g>0) else 0
     quadratic  rho*h^2            / rho*max(0,g)^2        gradient  2 rho h grad h     / 2 rho max(0,g) grad g
     AL         rho/2 (h+lambda/rho)^2 / rho/2 max(0, g+mu/rho)^2   gradient rho (h+lambda/rho) grad h / rho max(0, g+mu/rho) grad g
+
+Feasibility measures (kkt.py, back end B at a generic coordinate): ::make_criterion dominates the constraint violation (the clause the CBMC
+loop contract of the AL solver uses; its preconditions ro > 0 / miu >= 0 are obliged at the call sites, augmented.h), ::make_ro1 lies in
+[1e-6, 10], solver_state_t::kkt_optimality_test1..5 / kkt_optimality_test are the documented infinity norms of the stored values.
 """
+import re
+
 import astload
 import nvwp
 from core import VC, Fn, Target
@@ -256,11 +262,116 @@ def al_targets():
         obj = n['inner'][0]['inner'][0]
         P.note('bstate.update(cstate.x(), lambda, miu)')
         return f'nv_state_update_at({P.addr(obj)}, {P.addr(src)})'
+    # ---- sign tracking of the inequality multipliers (ghost `nv_miu_nonneg`): the vector handed to make_criterion as its second
+    # argument is followed through the function: its initialiser `make_full_vector<scalar_t>(n, v)` (flag := v >= 0), the Eigen
+    # assignment `miu.array() = E` (flag := sign analysis of E over the closed list  E.max(c): c >= 0 or E >= 0;  E.min(c): c >= 0 and
+    # E >= 0;  .array() / .matrix(): transparent;  miu itself: the old flag;  anything else: unknown), every other possibly mutating
+    # mention (clang's const analysis: not bound through a const-adding cast) havocs the flag.
+    state = {}
+
+    def miu_ids(P):
+        if 'ids' not in state:
+            ids = set()
+            fn_node = astload.find_definition('src/solver/augmented.cpp', 'solver_augmented_lagrangian_t::do_minimize', 'do_minimize')
+            for c in astload.walk(fn_node):
+                if c.get('kind') == 'CallExpr' and unwrap(c['inner'][0]).get('referencedDecl', {}).get('name') == 'make_criterion' and len(c['inner']) >= 3:
+                    a = unwrap(c['inner'][2])
+                    if a.get('kind') != 'DeclRefExpr':
+                        raise Unsupported('make_criterion(state, <multipliers>, ro): the multipliers are not a named vector')
+                    ids.add(a['referencedDecl']['id'])
+            if len(ids) > 1:
+                raise Unsupported('make_criterion is called with different multiplier vectors')
+            state['ids'] = ids
+        return state['ids']
+
+    def is_miu(e, ids):
+        e = unwrap(e)
+        return e.get('kind') == 'DeclRefExpr' and e.get('referencedDecl', {}).get('id') in ids
+
+    def strip_adaptors(e):
+        e = unwrap(e)
+        while e.get('kind') == 'CXXMemberCallExpr' and len(e['inner']) == 1 and e['inner'][0].get('name') in ('array', 'matrix', 'vector'):
+            e = unwrap(e['inner'][0]['inner'][0])
+        return e
+
+    def sign(P, e, ids):
+        e = strip_adaptors(e)
+        if is_miu(e, ids):
+            return '(nv_miu_nonneg != 0)'
+        if e.get('kind') == 'CXXMemberCallExpr' and len(e['inner']) == 2 and e['inner'][0].get('name') in ('max', 'min'):
+            nm = e['inner'][0]['name']
+            arg = e['inner'][1]
+            if f'scalar_{nm}_op' in qual(e.get('type')) and P.ctype(unwrap_arith(arg).get('type')) == 'double':
+                c = f'({P.expr(unwrap_arith(arg))} >= 0.0)'
+                o = sign(P, e['inner'][0]['inner'][0], ids)
+                return f'({c} || {o})' if nm == 'max' else f'({c} && {o})'
+        return 'nv_nondet__Bool()'
+
+    def unwrap_arith(a):
+        a = unwrap(a)
+        while a.get('kind') in ('ImplicitCastExpr', 'MaterializeTemporaryExpr', 'CXXFunctionalCastExpr') and a.get('inner') and \
+                P_base(a['inner'][0]) == 'double':
+            a = unwrap(a['inner'][0])
+        return a
+
+    def P_base(n):
+        return strip_cv(qual(n.get('type'))).replace('nano::', '') in ('double', 'scalar_t') and 'double'
+
+    def mutating_mentions(n, ids):
+        out = []
+
+        def rec(x, parent):
+            if not isinstance(x, dict):
+                return
+            if x.get('kind') == 'DeclRefExpr' and x.get('referencedDecl', {}).get('id') in ids:
+                ro = parent is not None and parent.get('kind') == 'ImplicitCastExpr' and parent.get('castKind') == 'NoOp' and \
+                    qual(parent.get('type')).startswith('const ')
+                # a CONST map view of the vector (`vector_cmap_t{miu}`, argument of solver_state_t::update) cannot write through
+                cmap = parent is not None and parent.get('kind') == 'CXXConstructExpr' and re.search(r'\b(vector|tensor|matrix)_cmap_t\b|\btensor_carray_storage_t\b', qual(parent.get('type')) + ' ' + parent.get('type', {}).get('qualType', ''))
+                if not ro and not cmap:
+                    out.append(x)
+            for c in x.get('inner', []) or []:
+                rec(c, x)
+        rec(n, None)
+        return out
+
+    LEAF_SKIP = ('CompoundStmt', 'ForStmt', 'IfStmt', 'WhileStmt', 'DoStmt', 'SwitchStmt', 'CXXForRangeStmt', 'CXXTryStmt', 'CaseStmt', 'DefaultStmt')
+
+    def miu_hook(P, n, ind):
+        if n.get('kind') in LEAF_SKIP or n.get('_nv_miu'):
+            return None
+        ids = miu_ids(P)
+        p = '  ' * ind
+        if n.get('kind') == 'DeclStmt':
+            for v in n.get('inner', []):
+                if v.get('kind') == 'VarDecl' and v.get('id') in ids:
+                    init = [x for x in v.get('inner', []) if x.get('kind') not in ('FullComment',)]
+                    flag = 'nv_nondet__Bool()'
+                    if init:
+                        u = unwrap(init[0])
+                        while u.get('kind') == 'CXXConstructExpr' and len(u.get('inner', [])) == 1:
+                            u = unwrap(u['inner'][0])
+                        if u.get('kind') == 'CallExpr' and unwrap(u['inner'][0]).get('referencedDecl', {}).get('name') == 'make_full_vector' and len(u['inner']) == 3:
+                            flag = f'({P.expr(unwrap_arith(u["inner"][2]))} >= 0.0)'
+                    n['_nv_miu'] = True
+                    P.note('inequality multipliers: sign flag initialised')
+                    return P.stmt1(n, ind) + f'{p}nv_miu_nonneg = {flag};\n'
+        ms = mutating_mentions(n, ids)
+        if not ms:
+            return None
+        u = unwrap(n)
+        if u.get('kind') == 'CXXOperatorCallExpr' and unwrap(u['inner'][0]).get('referencedDecl', {}).get('name') == 'operator=' and \
+                is_miu(strip_adaptors(u['inner'][1]), ids):
+            P.note('inequality multipliers: Eigen assignment, sign analysis')
+            return f'{p}nv_miu_nonneg = {sign(P, u["inner"][2], ids)};\n'
+        n['_nv_miu'] = True
+        P.note('inequality multipliers: possibly mutating mention, sign flag havocked')
+        return P.stmt1(n, ind) + f'{p}nv_miu_nonneg = nv_nondet__Bool();\n'
     members = [(r'^minimize\|', 'nv_inner_minimize()'), (r'^done\|', 'solver_done')] + common.MEMBERS
     calls = [(r'^make_ro1\|', 'nv_make_ro1({&0})'), (r'^make_criterion\|', 'nv_make_criterion({&0}, {&1}, {2})'),
              (r'^converged\|', '@nondet')] + common.CALLS
     kw = dict(common.COMMON)
-    kw.update(members=members, calls=calls, hooks=[hooks.param_hook(), update_at_hook],
+    kw.update(members=members, calls=calls, hooks=[hooks.param_hook(), update_at_hook], stmt_hooks=[miu_hook],
               opaque=common.OPAQUE + [r'augmented_lagrangian_function_t', r'rsolver_t', r'unique_ptr<nano::solver_t', r'penalty_function_t'],
               types=common.TYPES + [(r'^std::tuple<double, double>$', 'struct nv_tuple_f64_f64'),
                                     (r'std::tuple_element<[01], const std::tuple<double, double>>::type', 'double')])
@@ -269,17 +380,32 @@ def al_targets():
 
 
 def build(tier):
+    import core
+    import kkt
     vcs = []
     fns = []
-    r = kernel('linear_penalty_op', 'linear_penalty_function_t', '(* rho (rabs fc))', '(* rho (ite (>= fc 0.0) 1.0 (- 1.0)))',
-               'linear penalty term of one constraint')
-    vcs += r[0]; fns.append(r[1])
-    r = kernel('quadratic_penalty_op', 'quadratic_penalty_function_t', '(* rho (* fc fc))', '(* (* 2.0 rho) fc)', 'quadratic penalty term of one constraint')
-    vcs += r[0]; fns.append(r[1])
-    r = gating('penalty_vgrad', 'gating of the penalty term (equality or violated inequality)')
-    vcs += r[0]; fns += r[1]
-    r = al_body('augmented_lagrangian_do_vgrad', 'augmented Lagrangian term of one constraint')
-    vcs += r[0]; fns.append(r[1])
+
+    def one(f, *args):
+        def job():
+            r = f(*args)
+            return r[0], (r[1] if isinstance(r[1], list) else [r[1]])
+        return job
+
+    def own(f):
+        def job():
+            info = []
+            return f(info), info
+        return job
+    # one clang run per (translation unit, filter): the pieces are independent, run them side by side
+    jobs = [one(kernel, 'linear_penalty_op', 'linear_penalty_function_t', '(* rho (rabs fc))', '(* rho (ite (>= fc 0.0) 1.0 (- 1.0)))',
+                'linear penalty term of one constraint'),
+            one(kernel, 'quadratic_penalty_op', 'quadratic_penalty_function_t', '(* rho (* fc fc))', '(* (* 2.0 rho) fc)', 'quadratic penalty term of one constraint'),
+            one(gating, 'penalty_vgrad', 'gating of the penalty term (equality or violated inequality)'),
+            one(al_body, 'augmented_lagrangian_do_vgrad', 'augmented Lagrangian term of one constraint'),
+            own(kkt.criterion), own(kkt.ro1), own(kkt.kkt)]
+    for v, f in core.parallel(jobs, workers=4):
+        vcs += v
+        fns += f
     # corollary (pure SMT lemma on the formulas): at a feasible point with zero multipliers every term vanishes
     vcs.append(VC('lemma/feasible point, zero multipliers: every penalty and AL term is 0',
                   '(declare-const rho Real)(declare-const h Real)(declare-const g Real)(assert (> rho 0.0))(assert (= h 0.0))(assert (<= g 0.0))\n'
@@ -290,7 +416,7 @@ def build(tier):
     vcs.append(VC('lemma/criterion dominates the violation: mu >= 0, rho > 0 => |max(g, -mu/rho)| >= max(0, g)',
                   '(declare-const g Real)(declare-const mu Real)(declare-const rho Real)(assert (and (>= mu 0.0) (> rho 0.0)))\n'
                   '(define-fun mx ((a Real) (b Real)) Real (ite (>= a b) a b))(define-fun ab ((a Real)) Real (ite (>= a 0.0) a (- a)))\n'
-                  '(assert (not (>= (ab (mx g (- (/ mu rho)))) (mx 0.0 g))))', about='elementwise kernel of ::make_criterion (the lifting to vectors is the assumed Eigen contract)'))
+                  '(assert (not (>= (ab (mx g (- (/ mu rho)))) (mx 0.0 g))))', about='elementwise kernel of the criterion formula (the extracted ::make_criterion itself is under contract in kkt.py: make_criterion/*)'))
     vcs.append(VC('lemma/penalty parameter stays positive: ro > 0, gamma > 1 => gamma*ro > 0; clamp(ro, 1e-6, 10) > 0; max(miu + ro*g, 0) >= 0',
                   '(declare-const ro Real)(declare-const gamma Real)(declare-const m Real)(declare-const g Real)(assert (and (> ro 0.0) (> gamma 1.0)))\n'
                   '(define-fun mx ((a Real) (b Real)) Real (ite (>= a b) a b))(define-fun mn ((a Real) (b Real)) Real (ite (<= a b) a b))\n'
@@ -300,10 +426,18 @@ def build(tier):
         'targets': al_targets(), 'vcs': vcs, 'functions': fns,
         'decided': ['per-constraint value and gradient-coefficient of the linear, quadratic and augmented-Lagrangian penalties equal the defining formulas of the property (over the reals), including the equality/violated-inequality gating and the multiplier index discipline',
                     'at a feasible point with zero multipliers every term is 0',
-                    'augmented-Lagrangian solver: status converged => the returned state is valid and its constraint violation is <= epsilon (inductive invariant violation(best) <= old criterion); the stored constraint values and the value/gradient belong to the returned point; outer loop terminates'],
-        'not_decided': ['values/gradients of the 11 constraint kinds themselves (Eigen)', 'exactness in IEEE arithmetic: identities are proved over the reals, a re-association that is equal over R but not in floating point passes'],
+                    'augmented-Lagrangian solver: status converged => the returned state is valid and its constraint violation is <= epsilon (inductive invariant violation(best) <= old criterion); the stored constraint values and the value/gradient belong to the returned point; outer loop terminates',
+                    '::make_criterion (extracted, over the reals, generic coordinate, any number of constraints): ro > 0 and every miu_i >= 0 => criterion >= |h_i|, >= max(0, g_i), >= 0 for every i, hence >= max(|h|_inf, |max(0,g)|_inf) (lift lemma); its division by ro is defined',
+                    'the two preconditions of ::make_criterion are obliged at both call sites of the AL loop (CBMC assertions in the stub) and are loop invariants: ro > 0 (make_ro1 range, ro = gamma * ro with gamma > 1) and every miu_i >= 0 (ghost sign flag maintained from make_full_vector(n, 0.0) and the `.max(0.0).min(miu_max)` chain of the multiplier update, miu_max > 0)',
+                    '::make_ro1(state) with its default bounds returns a value in [1e-6, 10] (std::clamp by its [alg.clamp] definition, lo <= hi obliged; the AL solver calls it with the defaults): the clause the CBMC stub nv_make_ro1 states',
+                    'solver_state_t::kkt_optimality_test1..5 return the documented infinity norm of the documented vector (|max(g,0)|_inf, |h|_inf, |max(-mineq,0)|_inf, |mineq .* g|_inf, |lgx|_inf) of the STORED constraint values / multipliers; kkt_optimality_test() is the maximum of the five'],
+        'not_decided': ['values/gradients of the 11 constraint kinds themselves (Eigen)',
+                        'kkt_optimality_test5: that the stored m_lgx IS grad f + sum mineq_i grad g_i + sum meq_j grad h_j (solver_state_t::update_constraints loop) is not under contract; only the norm taken of it is',
+                        'header documentation vs code (include/nano/solver/state.h): the comment of test 5 writes sum(miu_j * h_j(x)) where the KKT stationarity condition (and the code, m_lgx += m_meq(eq) * cgrad) uses grad h_j; the comment calls the inequality multipliers lambda and the equality multipliers miu, the AL solver and the members (m_meq / m_mineq, lambda / miu in augmented.cpp) use the opposite letters; tests 1-4 agree with the code', 'exactness in IEEE arithmetic: identities are proved over the reals, a re-association that is equal over R but not in floating point passes'],
         'assumptions': ['IEEE double treated as real', 'penalty > 0', '::nano::vgrad(constraint, x, gc) returns the constraint value and writes its gradient to gc (opaque)',
-                        'Eigen: `gx += s * gc` adds s times gc coefficient-wise', '::make_criterion >= violation for miu >= 0, ro > 0 (elementwise kernel proved as SMT lemma, lifting to vectors assumed)', 'state.update(x, ...) recomputes the constraint values at x (update_constraints); the same point has the same violation', 'the inner solver and ::nano::converged are havocked', 'the multiplier counters ilambda / imiu stay below 2^62 (they count elements of an in-memory vector)'],
+                        'Eigen: `gx += s * gc` adds s times gc coefficient-wise', 'Eigen contracts used by the make_criterion / KKT walks (closed list of specs/C06/eig.py): coefficient-wise .max(s) / .max(array), unary minus, array / scalar, array * array, .array() / .matrix() adaptors; lpNorm<Eigen::Infinity>() of x is a number L with L >= |x_i| for every i and L >= 0, and equal coefficient terms give equal norms (congruence); lpNorm<1> is a different reduction about which nothing is known',
+                        'make_criterion: miu.size() == state.cineq().size() (one multiplier per inequality: miu is make_full_vector(bstate.cineq().size(), 0.0) and the number of constraints is fixed by the function); solver_state_t: m_meq / m_mineq have the sizes of m_ceq / m_cineq (constructor, update)',
+                        'CBMC side: the clause proved for make_criterion is used for valid (finite) states only; sign rule of the uninterpreted product a > 0, b > 0 => a * b > 0 (SMT lemma over the reals; no underflow with a factor > 1); sign analysis of the multiplier update: E.max(c) >= 0 if c >= 0, E.min(c) >= 0 if c >= 0 and E >= 0 (Eigen coefficient-wise max / min), an Eigen expression does not write its operands, a const map view (vector_cmap_t) does not write; mutating mentions of miu inside loop / if CONDITIONS are not looked for', 'state.update(x, ...) recomputes the constraint values at x (update_constraints); the same point has the same violation', 'the inner solver and ::nano::converged are havocked', 'the multiplier counters ilambda / imiu stay below 2^62 (they count elements of an in-memory vector)'],
         'trusted': [],
     }
 
@@ -317,6 +451,15 @@ def replay(rp):
         exe = replaylib.build_with_library('replay/C05_al_replay.cpp', 'C05_al_replay')
         rc, so, se = replaylib.run_driver(exe, [], timeout=900)
         out['runs'].append({'exit': rc, 'output': so.strip()[-1500:]})
+        out['reproduced'] = rc == 1
+        return out
+    if rp['target'].startswith(('kkt_optimality_test', 'make_criterion', 'make_ro1')):
+        # KKT residuals: a state with given multipliers against the documented norms recomputed by hand; criterion / initial penalty:
+        # the real AL solver on half-space projections far from the origin (converged => feasible within epsilon)
+        mode = 'kkt' if rp['target'].startswith('kkt_') else 'criterion'
+        exe = replaylib.build_with_library('replay/C05_feas_replay.cpp', 'C05_feas_replay')
+        rc, so, se = replaylib.run_driver(exe, [mode], timeout=900)
+        out['runs'].append({'mode': mode, 'exit': rc, 'output': so.strip()[-1500:]})
         out['reproduced'] = rc == 1
         return out
     exe = replaylib.build_with_library('replay/C05_replay.cpp', 'C05_replay')
